@@ -738,15 +738,18 @@ func main() {
 			cmd.Start()
 			go func() { done <- cmd.Wait() }()
 			select {
-			case <-done:
-				fmt.Println("watchdog: the evaluation finished when re-run alone; not a hang (machine load): ignored")
-				return
-			case <-time.After(60 * time.Second):
+			case err := <-done:
+				// the worker's own watchdog ends a replay that hangs or explodes in memory with status 1
+				if ee, ok := err.(*exec.ExitError); !ok || ee.ExitCode() != 1 {
+					fmt.Println("watchdog: the evaluation finished when re-run alone; not a hang (machine load): ignored")
+					return
+				}
+			case <-time.After(90 * time.Second):
 				cmd.Process.Kill()
 				<-done
 			}
 			os.WriteFile(final, raw, 0o644)
-			report(&replayHead{Prop: id, Oracle: fh.V.Oracle, Class: fh.V.Class, Message: fh.V.Message + " (confirmed: still running after 60 s when re-run alone)"}, final)
+			report(&replayHead{Prop: id, Oracle: fh.V.Oracle, Class: fh.V.Class, Message: fh.V.Message + " (confirmed when re-run alone in a fresh process)"}, final)
 			return
 		}
 		tmpOut := filepath.Join(scratch, "min-"+name)
